@@ -189,6 +189,11 @@ func runRead(in decIn) decOut {
 	ctx, cancel := context.WithCancel(context.Background())
 	defer cancel()
 	msgs := make(chan tea.Msg)
+	total := 0
+	for _, c := range in.Chunks {
+		total += len(c)
+	}
+	var flood int32
 	var mu sync.Mutex
 	var got, strs []string
 	consumerDone := make(chan struct{})
@@ -203,6 +208,12 @@ func runRead(in decIn) decOut {
 			}
 			select {
 			case m := <-msgs:
+				if n > total+16 {
+					// more messages than input bytes: the reader is emitting without consuming
+					atomic.StoreInt32(&flood, 1)
+					cancel()
+					return
+				}
 				mu.Lock()
 				got = append(got, tea.VerifDescribeMsg(m))
 				if k, ok := m.(tea.KeyMsg); ok {
@@ -258,6 +269,9 @@ func runRead(in decIn) decOut {
 	}
 	close(stop)
 	<-consumerDone
+	if atomic.LoadInt32(&flood) == 1 {
+		out.Why = "flood"
+	}
 	mu.Lock()
 	out.Msgs = append([]string{}, got...)
 	out.Strs = append([]string{}, strs...)
